@@ -115,6 +115,7 @@ func c03Eval(cfg drv.Cfg, src string) (o c03Obs, panicSite string) {
 		panic(err)
 	}
 	cfg.Apply(vm)
+	vm.Config.OpCountLimit = 4000 // 'while 1{}' is a legitimate endless program without a budget; with one it is an error on both sides
 	vm.Config.CallbackSt = func(_type string, name string, val *ds.VMValue, extra *ds.VMValue, op string, detail string) {
 		o.st = append(o.st, fmt.Sprintf("%s/%s/%s/%s/%s", _type, name, drv.Canon(val), op, strings.TrimSpace(detail)))
 	}
